@@ -882,6 +882,18 @@ func genRawSend(r *rand.Rand, tier string, idx int) *rawSendCase {
 		rs.Carrier, rs.Block, rs.TwoWriters, rs.BFlushes = "iq", 4, true, r.Intn(3) == 0
 		return rs
 	}
+	if (idx/10)%5 == 2 {
+		// the speaker's <close/> overtakes the acknowledgement of a data IQ; it
+		// then goes on sending packets for the dead sid
+		rs.Carrier, rs.Block = "iq", []int{3, 4, 64}[r.Intn(3)]
+		rs.CloseAt = 1 + r.Intn(2)
+		rs.Dir = dirSpec{Len: 8 * rs.Block, LenClass: "block", Part: "flush-each"}
+		for i := 0; i < 8; i++ {
+			rs.Dir.Steps = append(rs.Dir.Steps, wstep{N: rs.Block, Flush: true})
+		}
+		rs.Dir.NSteps, rs.Dir.StepsHead = len(rs.Dir.Steps), rs.Dir.Steps
+		return rs
+	}
 	if (idx/10)%5 == 1 {
 		// a data IQ answered with type='error' in one of several shapes
 		rs.Carrier, rs.Block = "iq", []int{3, 4, 64}[r.Intn(3)]
@@ -1111,7 +1123,42 @@ func execRawSend(c *core.Case, rs *rawSendCase) {
 				c.Violate("ibb:close:refused", "<close/> for the open stream (sent while a data packet was unacknowledged) was answered with %v", rep)
 				return
 			}
+			// The stream is closed: a late or duplicated packet of the speaker's
+			// own for that sid — while the acknowledgement is still outstanding,
+			// and after it — must be refused like any packet for an unknown
+			// session (both carriers), and must not hurt the session.
+			late := func(when string) bool {
+				id := rp.data("iq", sid, 0, "QUJD")
+				rep := rp.expect(byID(id), hardLimit)
+				if rep == nil {
+					closed, lerr := rp.loop.State()
+					c.Violate("ibb:session-ended:after-peer-close", "%s: a data IQ for the sid the speaker had closed is never answered (stream from the library closed=%v err=%v)", when, closed, lerr)
+					return false
+				}
+				if rep.Attr("type") != "error" || errCond(rep) != "item-not-found" {
+					c.Violate("ibb:refusal:closed-sid-peer:wrong-answer", "%s: a data IQ for the sid the speaker had closed (its <close/> was answered with a result) got type=%q <%s/>, want <item-not-found/>", when, rep.Attr("type"), errCond(rep))
+					return false
+				}
+				mid := rp.data("message", sid, 0, "QUJD")
+				if !rp.barrier() {
+					closed, lerr := rp.loop.State()
+					c.Violate("ibb:session-ended:after-peer-close", "%s: after a message-carried packet for the closed sid the session no longer answers (closed=%v err=%v)", when, closed, lerr)
+					return false
+				}
+				if mrep := rp.expect(byID(mid), 0); mrep != nil && errCond(mrep) != "item-not-found" {
+					c.Violate("ibb:refusal:closed-sid-peer:wrong-answer", "%s: a message-carried packet for the closed sid was answered with <%s/>", when, errCond(mrep))
+					return false
+				}
+				c.Count("packets_for_sid_closed_by_peer_during_write", 2)
+				return true
+			}
+			if !late("before the acknowledgement of the in-flight packet") {
+				return
+			}
 			ack(n)
+			if !late("after the acknowledgement of the in-flight packet") {
+				return
+			}
 			peerClosed = true
 			// The stream is gone on this side: whatever the interrupted Write still
 			// sends is refused like any packet for an unknown session, until the
